@@ -689,6 +689,7 @@ class Eval:
         'core::cmp::Ord::max': lambda a, b: max(a, b), 'core::cmp::Ord::min': lambda a, b: min(a, b),
         'core::num::saturating_sub': lambda a, b: max(0, a - b),
         'core::num::wrapping_add': lambda a, b: a + b, 'core::num::wrapping_sub': lambda a, b: a - b,
+        'core::num::wrapping_mul': lambda a, b: a * b, 'core::num::wrapping_shl': lambda a, b: a << b,
         'core::num::checked_sub': lambda a, b: ('Some', a - b) if a >= b else ('None',),
         'core::num::checked_add': lambda a, b: ('Some', a + b),
         'core::num::checked_mul': lambda a, b: ('Some', a * b),
